@@ -121,6 +121,7 @@ def make_object(ctx, model, cls, bound):
     if init is None:
         raise AnalysisError(f'{cls}.__init__ not found')
     run(model, init.qual, dict(bound, self=('obj', oid)), ctx=ctx)
+    ctx.heap[oid]['constructed'] = True
     return ('obj', oid)
 
 
